@@ -26,7 +26,8 @@ enum Exp { Val(Data), Numeric(f64, &'static str) }
 
 fn kinds() -> Vec<(String, BVal, Exp)> {
     let mut v = vec![];
-    for n in [1.5f64, 0.0, 1.0, -1.0, 0.01, 1234.56, 536870911.0, -536870912.0, 536870912.0, 1e100, 5e-324, -7.25, 123456.78] {
+    // 0.35, 0.41 and 1.13 are x/100 values for which x * 0.01 differs from x / 100 in the last bit
+    for n in [1.5f64, 0.0, 1.0, -1.0, 0.01, 1234.56, 536870911.0, -536870912.0, 536870912.0, 1e100, 5e-324, -7.25, 123456.78, 0.35, 0.41, 1.13] {
         for (name, w) in rk_encodings(n) {
             let must = match name { "rk-float" | "rk-float-x100" => "float", "rk-int" => "int", _ => "" };
             v.push((format!("{n} as {name}"), BVal::Rk(w), Exp::Numeric(n, must)));
